@@ -46,6 +46,12 @@ def cases(thorough):
                             for k in range(1, len(chunks) + 1):
                                 out.append(rc.base_case(cl=cl, chunks=chunks, kind=kind, use_write=use_write, fail="write" if use_write else "iter", fail_k=k,
                                                         exc=exc, lse=lse, version=version, conn=conn))
+    # the server's own error page (application failure before any output): what it says about persistence is
+    # unambiguous and true, for every request version / Connection header
+    for (version, conn) in (("1.1", ""), ("1.1", "close"), ("1.1", "keep-alive"), ("1.0", ""), ("1.0", "keep-alive"), ("1.0", "close")):
+        for fail, k in (("call", 0), ("start_response", 0), ("iter", 0)):
+            for cl in ("none", "exact"):
+                out.append(rc.base_case(cl=cl, chunks=[3], kind="gen", fail=fail, fail_k=k, version=version, conn=conn))
     # the application changes its mind before any output (exc_info re-call): the response is framed by the second
     # call's headers only - a Content-Length declared by the abandoned first call does not count
     for (version, conn) in (("1.1", ""), ("1.0", "keep-alive")):
